@@ -8,7 +8,7 @@
    dropping to at most half by moving it back past the last value of the low
    side (groups of equal binary32 coordinate; zero-weight groups count). *)
 From Coupe Require Import Lib.Prelude Lib.SFloat Model.Rcb Gen.RcbGen
-  Proofs.SFOrder Proofs.RcbProofs Proofs.RcbInst Proofs.RcbBalance Proofs.RcbBalInst Proofs.RcbRegress.
+  Proofs.SFOrder Proofs.RcbProofs Proofs.RcbInst Proofs.RcbBalance Proofs.F32Flocq Proofs.RcbBalInst Proofs.RcbRegress.
 From Coq Require Import Floats.SpecFloat Permutation.
 Open Scope Z_scope.
 
@@ -21,21 +21,31 @@ Definition rcb_impl := rcb rcb_variant.
 Theorem C04_variant_is_head : rcb_variant = head_variant.
 Proof. exact eq_refl. Qed.
 
-(* PARTIAL (one premise not discharged): for every tolerance, schedule and fuel,
-   on finite coordinates and non-negative weights, if the call returns Ok the
-   ids with the binary32 coordinates and the weights form a BalTree.
-   MidSpec (f32_mid true) -- the midpoint of two finite values is finite and,
-   when it is not strictly between them, no finite value is -- is true of
-   binary32 `min/2 + max/2` but is not proved here for SpecFloat.
-   box_ok32 is decidable and evaluated on every generated case. *)
-Theorem C04_rcb_split_balanced_partial : forall fuel sched D k tol pts ws p0 p,
-  MidSpec (f32_mid true) ->
+(* For every tolerance, schedule and fuel, on finite coordinates and
+   non-negative weights, if the call returns Ok the ids with the binary32
+   coordinates and the weights form a BalTree.  The two facts about the
+   midpoint `min/2 + max/2` that the loop invariant needs are proved for
+   SpecFloat with Flocq (C04_mid_spec; real-number axioms of the standard
+   library).  box_ok32 (the root box, f64 min/max then `as f32`, has finite
+   bounds enclosing the binary32 coordinates) is decidable and evaluated on
+   every generated case. *)
+Theorem C04_rcb_split_balanced : forall fuel sched D k tol pts ws p0 p,
   contract pts ws -> box_ok32 D pts ws = true ->
   rcb_impl fuel sched D k tol pts ws p0 = Ok p ->
   exists t, Permutation t (combine (combine (to32 pts) ws) p)
             /\ BalTree spec_float flt (tol_test tol) D k 0%nat t.
 Proof. exact rcb_split_balanced. Qed.
-Print Assumptions C04_rcb_split_balanced_partial.
+Print Assumptions C04_rcb_split_balanced.
+
+(* the midpoint of two finite binary32 values is finite, and when it is not
+   strictly between them no finite value is *)
+Theorem C04_mid_spec :
+  (forall a b, f32_fin a = true -> f32_fin b = true -> f32_fin (f32_mid true a b) = true)
+  /\ (forall a b x, f32_fin a = true -> f32_fin b = true -> f32_fin x = true ->
+        negb (flt a (f32_mid true a b) && flt (f32_mid true a b) b) = true ->
+        flt a x = true -> flt x b = true -> False).
+Proof. exact mid_spec32. Qed.
+Print Assumptions C04_mid_spec.
 
 (* generic form (any coordinate type; the hypotheses on the order and on
    [mid] are exactly what the proof uses) *)
